@@ -126,6 +126,9 @@ def apply_view(a, view):
     storage) and on a model array."""
     if not view:
         return a
+    if view.endswith("+own"):
+        # the same layout in storage of its own (what copy.copy / copy.deepcopy / .copy(order="K") of a view give): owning, not C-ordered
+        return apply_view(a, view[:-4]).copy(order="K")
     if view == "T":
         return a.T
     if view == "rev":
@@ -141,6 +144,7 @@ def apply_view(a, view):
 def view_shape(spec) -> Tuple[int, ...]:
     shape = tuple(spec.get("shape", ()))
     v = spec.get("view")
+    v = v[:-4] if v and v.endswith("+own") else v
     if v == "T":
         return tuple(reversed(shape))
     if v == "swap" and len(shape) >= 2:
@@ -173,6 +177,53 @@ def _layout(a: numpy.ndarray, layout):
     raise ValueError(layout)
 
 
+PRE_CHAINS = ["T2", "reshape", "copy", "getitem", "polynomial", "plus0", "astype", "stack0", "where", "pickle", "aligned"]
+
+
+def apply_pre(p, pre):
+    """The same polynomial array obtained through another library function first (value-, shape- and name-preserving): the
+    operation under test then meets an operand that is the *result* of transpose / reshape / indexing / stacking / where / a cast
+    rather than a freshly constructed one."""
+    import numpoly
+
+    if not getattr(p, "size", 1):
+        return p  # (zero-size arrays: most functions are outside their domain there, see DESIGN)
+    for step in pre or ():
+        q = p
+        if step == "T2":
+            q = numpoly.transpose(numpoly.transpose(p))
+        elif step == "reshape":
+            q = numpoly.reshape(numpoly.reshape(p, (-1,)), p.shape) if p.shape else p
+        elif step == "copy":
+            q = p.copy()
+        elif step == "getitem":
+            q = p[...] if p.shape else p
+        elif step == "polynomial":
+            q = numpoly.polynomial(p)
+        elif step == "plus0":
+            q = p + 0
+        elif step == "astype":
+            q = p.astype(p.dtype)
+        elif step == "stack0":
+            q = numpoly.stack([p, p])[1] if p.shape else p
+        elif step == "where":
+            q = numpoly.where(numpy.ones(p.shape, dtype=bool), p, p)
+        elif step == "pickle":
+            if p.dtype != object:  # (native runs only: the exact carrier's numbers are not picklable)
+                import pickle
+
+                q = pickle.loads(pickle.dumps(p))
+        elif step == "aligned":
+            # what align_polynomials hands back: the same polynomial carrying an all-zero term (and keeping its names)
+            extra = numpoly.ndpoly(exponents=[[7] + [0] * (len(p.names) - 1)], shape=(), names=p.names, dtype=p.dtype)
+            extra.values[extra.keys[0]] = 0 if p.dtype != object else Sym.const(0)
+            q = numpoly.align_exponents(p, extra)[0]
+        # a step that changes the declared names or the shape (p + 0 adds the default name q0) is not a pre-chain of *this* operand
+        if tuple(q.names) == tuple(p.names) and tuple(q.shape) == tuple(p.shape):
+            p = q
+    return p
+
+
 def build_operand(spec: Dict, values: Optional[Dict[str, Fraction]] = None):
     """Build the real operand (numpoly.ndpoly / ndarray / list / python number).
 
@@ -192,11 +243,11 @@ def build_operand(spec: Dict, values: Optional[Dict[str, Fraction]] = None):
             arrs = [numpy.array([_native(v, dt) for v in col], dtype=dt).reshape(shape) for col in cols]
         names = tuple(spec["names"])
         if spec.get("mode", "raw") == "clean":
-            return apply_view(numpoly.polynomial_from_attributes(spec["exps"], arrs, names, dtype=dt if values is None else None), spec.get("view"))
+            return apply_view(apply_pre(numpoly.polynomial_from_attributes(spec["exps"], arrs, names, dtype=dt if values is None else None), spec.get("pre")), spec.get("view"))
         p = numpoly.ndpoly(exponents=spec["exps"], shape=shape, names=names, dtype=dt)
         for key, arr in zip(p.keys, arrs):
             p.values[key] = arr
-        return apply_view(p, spec.get("view"))
+        return apply_view(apply_pre(p, spec.get("pre")), spec.get("view"))
     vals = [_slot_value(s, values) for s in spec["slots"]]
     if kind == "scalar":
         v = vals[0]
@@ -312,7 +363,10 @@ def make_poly_spec(
         rng.shuffle(order)
         exps = [exps[i] for i in order]
         slots = [slots[i] for i in order]
-    return {"kind": "poly", "names": list(names), "exps": exps, "shape": list(shape), "slots": slots, "mode": mode}
+    sp = {"kind": "poly", "names": list(names), "exps": exps, "shape": list(shape), "slots": slots, "mode": mode}
+    if rng.random() < 0.2:
+        sp["pre"] = [rng.choice(PRE_CHAINS)] if rng.random() < 0.7 else rng.sample(PRE_CHAINS, 2)
+    return sp
 
 
 def make_numeric_spec(prefix: str, kind: str, shape, rng: random.Random, atom_budget: int) -> Dict:
